@@ -789,4 +789,32 @@ def r_serializer_idle(ctx):
             ctx.violation('%s:finished-dump-leaves-serializer-busy' % chk.qualname, chk.loc(n.ast),
                           'checkSerializing can return `%s` with self.%s still != %r: serialize() and getTransmissionData() refuse forever afterwards '
                           '(no further compaction, and a lagging follower is never sent the snapshot): %s' % (unparse(v), marker, idle, res.path_str(n.id, bad)), instance=inst)
-    ctx.expect_min(5, 'returns of checkSerializing')
+    # the dual: once serialize() has started a dump (forked a child, or begun writing inline) it cannot return normally
+    # with the marker still idle -- otherwise the finished dump is never noticed (no trim) and the next call starts another one
+    scfg = U.explorer(ctx, ser).cfg
+    starts = [n for n in scfg.nodes if n.kind in ('stmt', 'cond', 'with') and n.ast is not None and any(
+        isinstance(c, ast.Call) and (unparse(c.func) in ('os.fork',) or unparse(c.func).endswith('BytesIO') or (isinstance(c.func, ast.Name) and c.func.id == 'open'))
+        for c in (ast.walk(n.ast) if n.kind != 'with' else [x for i in n.ast.items for x in ast.walk(i.context_expr)]))]
+    marks = [n.id for n in scfg.nodes if n.kind == 'stmt' and isinstance(n.ast, ast.Assign) and P.self_attr(n.ast.targets[0], ser.self_name) == marker
+             and not (isinstance(n.ast.value, ast.Constant) and n.ast.value.value == idle)]
+    exits_ = [n.id for n in scfg.nodes if n.kind == 'stmt' and n.ast is not None and any(isinstance(c, ast.Call) and unparse(c.func) == 'os._exit' for c in ast.walk(n.ast))]
+    inst = 'serialize() leaves the busy marker set once a dump was started'
+    ctx.tick()
+    bad_start = None
+    for st_ in starts:
+        for d, l in st_.succ:
+            if isinstance(l, tuple) and l[0] == 'exc':
+                continue
+            if d in marks or d in exits_:
+                continue
+            if scfg.exit.id in scfg.reachable_from(d, avoid=marks + exits_, follow_exc=True):
+                bad_start = st_
+    if not starts:
+        ctx.unproven(inst, ser.loc(), 'no fork / open / BytesIO call found in serialize()')
+    elif bad_start is None:
+        ctx.ok(inst, ser.loc(), '%d start site(s): the normal exit is unreachable from them without assigning self.%s (or leaving the child with os._exit)' % (len(starts), marker))
+    else:
+        ctx.violation('%s:dump-started-without-busy-marker' % ser.qualname, ser.loc(bad_start.ast),
+                      'after `%s` serialize() can return with self.%s still %r: checkSerializing() never reports this dump (the journal is never trimmed) and the next '
+                      'compaction attempt starts another dump next to the running one' % (unparse(bad_start.ast)[:50], marker, idle), instance=inst)
+    ctx.expect_min(6, 'returns of checkSerializing')
